@@ -296,3 +296,5 @@ _quick("C08", "C08_bufcut", "as C08_cut with 3 records and the log reader's buff
 _quick("C13", "C13_calllist", "CALL LIST_LOCK / LIST_LOCKED / LIST_WAIT through the real handlers with a protobuf request whose db_id is 0..3 or any 32-bit value from 200 up and whose lock_key has 0..16 bytes: a result, never a crash; SUCCED only for the database that exists", ["-witness", "20"])
 
 _quick("C18", "C18_adminwills", "a binary connection switches to the text protocol with ADMIN, registers 0..2 wills in text form (real TextServerProtocol.Process over a scripted stream) and the stream ends; after BinaryServerProtocol.Close each will has been executed exactly once, in order", ["-witness", "3"])
+
+_quick("C07", "C07_percent", "a hold with the share-of-expiry persistence flag (0x1000, 30 %) and E in {20, 140, 200, 600} s (delay 6 / 42 / 60 / 180 s), clock advanced second by second through the real sweeps to delay + 15 s: the hold has been persisted", ["-witness", "4"])
